@@ -15,26 +15,33 @@ from lv import core, model, gen, drive, canon
 from lv.props import common
 
 ID = 'C08'
-BUDGET = {'quick': 130, 'thorough': 5000}
-RULE = ('programs from the typed generator (3-4 intermediate concrete predicates, '
-        'aggregation, negation, aggregating expressions) calling injectible-only predicates '
-        'and functions, among them ones whose bodies contain combines and negations '
-        '(`F(x) = Sum{y :- E(x, y)}`, `J(x, lo, hi) :- lo = Min{y :- E(x, y)}, hi = Max{y :- '
-        'E(y, x)}, ~E(x, x)`, sibling scopes re-using one local name), called twice in a rule, '
-        'nested (F(F(1)), the output of one call feeding the next, through an injected '
-        'intermediate predicate), with caller variables named like the callee\'s parameters '
-        'and locals; per program 5 assignments of {none, @NoInject, @With, @NoWith, '
-        '@NoInject+@NoWith, @NoInject+@With, @Ground} to every concrete predicate (always '
-        'all-none, all-@NoInject, all-@Ground, then two drawn mixes).  Under every assignment '
-        'every intensional predicate is compiled from a fresh program object and run on '
-        'SQLite, and (all-none and the mixes) additionally all of them are compiled one '
-        'after another from ONE program object in a drawn order, sometimes one of them '
-        'twice (history) and run; every result is compared with '
-        'the reference evaluator, in which a call to an injectible predicate is its body with '
-        'the arguments substituted.  One evaluation = (annotated text, predicate) fresh, or '
-        '(annotated text, order) for a history.  Non-trivial = the SQL text differs from the '
-        'unannotated compile and the predicate has >= 1 row (fresh), or a history of >= 2 '
-        'predicates with >= 1 non-empty result; distinct by that key.')
+BUDGET = {'quick': 130, 'thorough': 3000}
+RULE = ('programs from the typed generator: 3-4 intermediate concrete predicates, half of them '
+        'drawn by the general rule generator (joins, aggregation, negation, aggregating '
+        'expressions, disjunction ...), half of them small rules built around injection '
+        '(`I(x, a, b) :- E(x), a == F(x), b == F(a), J(b, lo, hi)`: 1-3 calls of injectibles, '
+        'the same one twice, nested F(F(x)), the output of one call feeding the next, reading '
+        'an earlier such predicate that is itself injected unless annotated; or `I(k, lo, hi) '
+        ':- E(k), lo = Min{y :- T(k, y)}, hi = Max{y :- T(y, k)}, ~T(k, y)`: sibling scopes '
+        'sharing a local name, nested scopes reading the enclosing local), over fact tables '
+        'of which about half are dense (closed 3-value domain, so F(F(x)) stays defined); '
+        'injectible-only predicates and functions, 60 % of them with combines / negations in '
+        'their bodies (`F(x) = Sum{y :- E(x, y)}`, `J(x, lo, hi) :- lo = Min{y :- E(x, y)}, hi '
+        '= Max{y :- E(y, x)}, ~E(x, x)`); caller variables named like the callees\' parameters '
+        'and (shared) locals; 4 programs in 10 with one @OrderBy (total) + @Limit predicate '
+        'that other rules read (never injectable); per program 5 assignments of {none, '
+        '@NoInject, @With, @NoWith, @NoInject+@NoWith, @NoInject+@With, @Ground} to every '
+        'concrete predicate (always all-none, all-@NoInject, all-@Ground, then two drawn '
+        'mixes).  Under every assignment every intensional predicate is compiled from a fresh '
+        'program object and run on SQLite, and (all-none and the mixes) additionally all of '
+        'them are compiled one after another from ONE program object in a drawn order, '
+        'sometimes one of them twice (history), each run on SQLite; every result is compared '
+        'with the reference evaluator, in which a call to an injectible predicate is its body '
+        'with the arguments substituted (capture-avoiding).  One evaluation = (annotated text, '
+        'predicate) fresh, or (annotated text, order) for a history.  Non-trivial = the SQL '
+        'text differs from the unannotated compile and the predicate has >= 1 row (fresh), or '
+        'a history of >= 2 predicates with >= 1 non-empty result; distinct by that key.  '
+        'Labels prog:shape:* count the programs that contain each hazard shape.')
 ASSUMPTIONS = ['reference evaluator lv/ref.py is the oracle', 'CPython sqlite3',
                '@Ground uses the in-memory logica_test database SQLite attaches by default',
                'composite values compared after JSON canonicalisation (double encoding '
@@ -49,10 +56,11 @@ OPTS = dict(p_colnames=0.0, p_neg=0.2, p_agg=0.25, p_distinct=0.3, p_null_fact=0
             p_aggx=0.03, p_aggx_nobody=0.3, p_agg_nobody=0.04,
             p_inj_combine=0.6, p_inj_extra=0.35, p_fcall_nest=0.35, p_name_clash=0.4,
             p_call_idb=0.2, p_reuse_pick=0.6, p_inj_feed=0.5, p_hazard_rule=0.5,
-            p_graph_edb=0.5)
+            p_graph_edb=0.5, null_in_single_fact=False, inj_distinct_args=True)
 CHOICES = ((), ('@NoInject',), ('@With',), ('@NoWith',), ('@NoInject', '@NoWith'),
            ('@NoInject', '@With'), ('@Ground',))
 N_ASSIGNMENTS = 5
+P_LIMITED = 0.4          # share of programs with one @OrderBy + @Limit predicate
 HISTORY_FOR = ('none', 'mix')        # assignments whose predicates are also compiled as a history
 
 
@@ -73,6 +81,50 @@ def annotate(prog, asg):
             ann.append('%s(%s);' % (a, pred))
     p['ann'] = ann
     return p
+
+
+def add_limited(prog, refs, rng):
+    """One single-rule, non-distinct intensional predicate that other rules read gets
+    `@OrderBy(T, <every column>)` (a total order up to identical rows) and `@Limit(T, k)`,
+    0 < k < number of its rows: such a predicate must never be injected, whatever plan
+    annotations say.  -> (program, labels); the maps order_by / limit are what the
+    reference evaluator reads."""
+    count, reads = {}, {}
+    for r in prog['rules']:
+        count[r['pred']] = count.get(r['pred'], 0) + 1
+        for l in common.walk_lits(r['body']):
+            if l[0] == 'call' and l[1] != r['pred']:
+                reads[l[1]] = reads.get(l[1], 0) + 1
+    cands = []
+    for r in prog['rules']:
+        p = r['pred']
+        if not p.startswith('I') or count[p] != 1 or r.get('distinct') or not reads.get(p):
+            continue
+        if r.get('value') is not None or any(h[0] == 'AGG' for _, h in r['head']):
+            continue
+        st, cols, rows = refs.get(p, ('none', None, None))
+        if st != 'ok' or len(rows) < 2 or len(set(map(repr, rows))) < 2:
+            continue
+        if any(v is None or isinstance(v, (list, dict)) for row in rows for v in row):
+            continue
+        cands.append((p, r, rows))
+    if not cands:
+        return prog, []
+    p, r, rows = rng.choice(cands)
+    keys = [(f, rng.random() < 0.4) for f, _ in r['head']]
+    rng.shuffle(keys)
+    k = rng.randint(1, len(rows) - 1)
+    spell = ['"%s%s"' % ('col%d' % f if isinstance(f, int) else f, ' desc' if d else '')
+             for f, d in keys]
+    p2 = dict(prog)
+    p2['ann'] = list(prog.get('ann', [])) + ['@OrderBy(%s, %s);' % (p, ', '.join(spell)),
+                                             '@Limit(%s, %d);' % (p, k)]
+    p2['order_by'] = {p: [[f, d] for f, d in keys]}
+    p2['limit'] = {p: k}
+    labels = ['limited_predicate']
+    if reads[p] >= 2:
+        labels.append('limited_predicate_read_twice')
+    return p2, labels
 
 
 def targets(prog):
@@ -170,8 +222,11 @@ def check_history(prog, text, rules, order, refs):
                 '%s\n%s' % (common.first_line(e), hdr), pred))
             continue
         except Exception as e:
-            out.append(('fail', 'history:internal:' + drive.exc_frame(e),
-                        '%s\n%s' % (traceback.format_exc()[-1500:], hdr), pred))
+            b = 'history:internal:' + drive.exc_frame(e)
+            if type(e).__module__ == 'sqlite3':
+                b = 'history:internal:%s:%s' % (type(e).__name__,
+                                                common.sqlite_msg_class(str(e)))
+            out.append(('fail', b, '%s\n%s' % (traceback.format_exc()[-1500:], hdr), pred))
             continue
         if st != 'ok':
             out.append(('inconclusive', st, '', pred))
@@ -297,6 +352,12 @@ def shard(ctx, col):
             col.label('prog:' + l)
         preds = targets(prog)
         refs = references(prog, preds)
+        if rng.random() < P_LIMITED:
+            prog, ll = add_limited(prog, refs, rng)
+            if ll:
+                refs = references(prog, preds)
+            for l in ll:
+                col.label('prog:' + l)
         base = {}
         for name, asg in assignments(prog, rng):
             res, text, rules = check_assignment(prog, asg, refs, preds, splicer)
@@ -364,4 +425,7 @@ def check_case(case):
 
 
 def minimise(case, bucket):
+    import os
+    if os.environ.get('VERIF_C08_NOMIN'):       # triage: keep the generated program
+        return case
     return common.minimise_program(case, bucket, check_case)
